@@ -28,6 +28,10 @@ FMT_ARITY = {t: a for t, a in FMT}
 
 def plan(tier):
     t = [{'kind': 'bits'}, {'kind': 'dict'}, {'kind': 'db'}]
+    for pat in ('not-and', 'cmp', 'xor-nor', 'iff-not'):
+        for L in space.DEEP_LENGTHS[tier][:2]:
+            for st in ('fwd', 'rev'):
+                t.append({'kind': 'deep', 'pattern': pat, 'L': L, 'storage': st})
     fams = [('FMT', 0, 1, 0), ('FMT', 0, 2, 1), ('FMT', 1, 1, 0), ('FMT', 1, 2, 1), ('FMT', 2, 1, 1), ('FMT', 2, 2, 1),
             ('FMT', 3, 1, 1), ('FMT', 3, 0, 0), ('FMT', 0, 0, 0), ('FMT', 1, 0, 0),
             ('EXT', 1, 1, 0), ('EXT', 2, 1, 1), ('EXT', 2, 2, 1), ('EXT', 0, 2, 1)]
@@ -42,7 +46,7 @@ def plan(tier):
 
 def describe(tier):
     return {
-        'rule': 'bytes(writer) read after every single write (an observation must not change what is written next); circ: every circuit of F(n,k,FMT) (14 format types at format arities - constants carry two operands; n>=0) and F(n,k,EXT) (3/4-ary gates, '
+        'rule': 'deep: encode/decode of chains of 1200/3000 gates in four format patterns, both storage orders; bytes(writer) read after every single write (an observation must not change what is written next); circ: every circuit of F(n,k,FMT) (14 format types at format arities - constants carry two operands; n>=0) and F(n,k,EXT) (3/4-ary gates, '
         'L*/R* types, constants with 0/1 operands) x outputs (all sequences of length 0..2) x object/storage variants (creation; copy.deepcopy; pickle round trip; declared input order reversed / rotated; every '
         'order reachable by renaming each gate away and back) -> encode/decode; structural '
         'comparison up to renaming + truth tables. bits: every bit string of length<=12, every write_number(v,len) '
@@ -181,6 +185,36 @@ def check_circuit(n, gates, acc, alpha, only=None):
                 acc.violation('codec/truth-table-differs', case, '', feats)
             acc.outcome('codec', ('ok', in_format, len(data)))
     acc.sample({**space.spec_json(n, gates, outs_all[-1]), 'order': 'creation'})
+
+
+def check_deep(acc, pattern, L, storage):
+    """encode/decode of a chain deeper than the recursion limit (gate tables compared as a multiset, outputs
+    positionally; the nested structural signature of the small families would itself be 3000 levels deep)"""
+    from cirbo.circuits_db.circuits_encoding import decode_circuit, encode_circuit
+
+    c, net = space.deep_chain(pattern, L, storage)
+    case = {'deep_chain': pattern, 'length': L, 'storage': storage}
+    acc.states += 1
+    acc.traces += 1
+    acc.transitions += 2
+    before = refmodel.abstract(c).key()
+    try:
+        data = encode_circuit(c)
+        d = decode_circuit(data)
+    except Exception as e:  # noqa: BLE001
+        acc.violation(f'codec/raises-{type(e).__name__}', case, repr(e)[:200], {'in_format': True})
+        return
+    if refmodel.abstract(c).key() != before:
+        acc.violation('encode/argument-modified', case, '', {'in_format': True})
+    got = refmodel.abstract(d)
+    if len(got.inputs) != len(net.inputs) or len(got.gates) != len(net.gates) or len(got.outputs) != len(net.outputs) or refmodel.wellformed(d, deep=False):
+        acc.violation('codec/silently-different-circuit', case, f'{len(got.gates)} gates', {'in_format': True})
+        return
+    wt, gt = net.tables(), got.tables()
+    types = lambda nt: sorted(t for t, _ in nt.gates.values())  # noqa: E731
+    if [gt[o] for o in got.outputs] != [wt[o] for o in net.outputs] or sorted(gt.values()) != sorted(wt.values()) or types(got) != types(net):
+        acc.violation('codec/truth-table-differs', case, '', {'in_format': True})
+    acc.outcome('codec', ('deep', pattern, len(data)))
 
 
 def check_bits(acc):
@@ -459,6 +493,8 @@ def check_db(acc):
 
 
 def run_task(task, acc):
+    if task.get('kind') == 'deep':
+        return check_deep(acc, task['pattern'], task['L'], task['storage'])
     kind = task['kind']
     if kind == 'bits':
         return check_bits(acc)
@@ -472,6 +508,8 @@ def run_task(task, acc):
 
 
 def replay(case, acc):
+    if 'deep_chain' in case:
+        return check_deep(acc, case['deep_chain'], case['length'], case['storage'])
     if 'task' in case:
         return run_task(case['task'], acc)
     if 'gates' in case:
